@@ -81,7 +81,15 @@ func LeafOn(r *rand.Rand, p Path) ref.Stmt {
 		default:
 			return ref.Stmt{Kind: Pick(r, ref.CmpKinds[1:]), Sel: p.Sel, Val: ref.Int(nearInt(r, v.I))}
 		}
+	case ref.KLink:
+		// equality against the same link or another link of the pool (possibly one that shares
+		// the multihash and differs in codec / version)
+		return ref.Stmt{Kind: "==", Sel: p.Sel, Val: ref.Link(Pick(r, LinkPool()))}
 	case ref.KFloat:
+		if r.IntN(4) == 0 {
+			// any float of the pool, incl. huge magnitudes of either sign
+			return ref.Stmt{Kind: Pick(r, ref.CmpKinds), Sel: p.Sel, Val: ref.Float(Pick(r, floatPool))}
+		}
 		d := Pick(r, []float64{0, 0, 0.5, -0.5, 1, -1})
 		if r.IntN(3) == 0 {
 			return ref.Stmt{Kind: "==", Sel: p.Sel, Val: ref.Float(v.F + d)}
@@ -223,7 +231,7 @@ func StmtWithTruth(r *rand.Rand, d ref.V, paths []Path, depth int, want bool) (r
 // ArgsMap draws an argument map (top-level map with ≥1 entries, nested values).
 func ArgsMap(r *rand.Rand) ref.V {
 	for {
-		m := MapValue(r, 3, ValOpts{MaxWidth: 5, IntegralF: false})
+		m := MapValue(r, 3, ValOpts{MaxWidth: 5, IntegralF: false, Links: true})
 		// a top-level null argument cannot be unsealed by the pinned tree (known finding of
 		// C07, judged there); the chain workloads keep null below the top level
 		for i := range m.M {
